@@ -11,6 +11,10 @@ property's last clause names: "the next transfer on the same client and the same
   and does ANYTHING to the responses: a download that returns normally has stored exactly the
   payload in the local node (`set_data` ran exactly as for an undisturbed download).
 * `distPeer_lib_forwards`: the disturbing layer of the correspondence run is such a peer.
+* `upload_never_silently_wrong_lib`: any peer honest towards the library server (whatever it
+  delivers first after an upload request is rejected by the client or is the server's true
+  response): an upload that returns normally returns exactly `get_data`'s value;
+  `schedPeer_lib_honest`: every schedule of losses, duplicates and abort frames is such a peer.
 * `next_transfer_clean_lib`: from any well-formed server state (mid-upload, mid-download, stale
   buffer) and any stale content of the client's queue, the next download stores exactly its
   payload and the following upload returns exactly it.
@@ -107,5 +111,229 @@ theorem next_transfer_clean_lib (c : Chan (Srv × Node)) (idx sub t : Nat) (bs :
 
 example : SrvWF (feedPeer libPeer (srvInit, C03.exNode) [[0x40, 0x00, 0x20, 0, 0, 0, 0, 0]]).1 :=
   lib_server_wf_any_requests _ _ srvInit_wf
+
+end Canopen.C07.Lib
+
+namespace Canopen.C07.Lib
+open Canopen Canopen.Sdo Canopen.C07 Canopen.C03 Canopen.C02 Canopen.Gen.SdoConst
+
+/-! ## uploads from the library's own server under disturbance -/
+
+/-- The peer forwards requests to the library server, and whatever it puts *first* into the
+    client's queue after an upload request is either something the client rejects (wrong command
+    specifier, toggle bit or multiplexer, an abort frame, malformed) or the server's true
+    response — the analogue of `C07.Honest` with the `LocalNode`'s server in place of the
+    specification server. -/
+structure HonestLib {σ} (P : Peer σ) (proj : σ → Srv × Node) : Prop where
+  fw : ForwardsLib P proj
+  init : ∀ (p : σ) (idx sub : Nat) (r' : Bytes) (rest : List Bytes) (s : RS), SrvWF (proj p).1 →
+    (P p (initReq idx sub)).2 = r' :: rest → rsInitDecode idx sub (decodeResponse r') = .ok s →
+    (libPeer (proj p) (initReq idx sub)).2 = [r']
+  seg : ∀ (p : σ) (st : RS) (r' : Bytes) (rest : List Bytes) (x : RS × Bytes), SrvWF (proj p).1 →
+    (P p (segReq st.toggle)).2 = r' :: rest → rsReadDecode st (decodeResponse r') = .ok x →
+    (libPeer (proj p) (segReq st.toggle)).2 = [r']
+
+theorem rr_one {β} (B : Peer β) (c0 : Chan β) (req r : Bytes) (h : (B c0.peer req).2 = [r]) :
+    requestResponse B c0 req =
+      ({ peer := (B c0.peer req).1, queue := [], sent := c0.sent ++ [req] }, decodeResponse r) := by
+  rcases rr_cases B c0 req with ⟨h0, _⟩ | ⟨r', rest, hq, hrr⟩
+  · rw [h] at h0; simp at h0
+  · rw [h] at hq
+    simp only [List.cons.injEq] at hq
+    obtain ⟨rfl, rfl⟩ := hq
+    exact hrr
+
+theorem libPeer_wf (p : Srv × Node) (req : Bytes) (h : SrvWF p.1) : SrvWF (libPeer p req).1.1 :=
+  step_wf p.1 p.2 req h
+
+theorem rsInit_sim_lib {σ} (P : Peer σ) (proj : σ → Srv × Node) (hh : HonestLib P proj) (c c' : Chan σ)
+    (c0 : Chan (Srv × Node)) (hc0 : c0.peer = proj c.peer) (hwf : SrvWF c0.peer.1) (idx sub : Nat) (s : RS)
+    (h : rsInit P c idx sub = (c', .ok s)) :
+    ∃ c0', rsInit libPeer c0 idx sub = (c0', .ok s) ∧ c0'.peer = proj c'.peer ∧ SrvWF c0'.peer.1 := by
+  unfold rsInit at h ⊢
+  dsimp only at h ⊢
+  rcases rr_cases P c (REQUEST_UPLOAD :: (muxB idx sub ++ [0, 0, 0, 0])) with ⟨_, he⟩ | ⟨r', rest, hq, hrr⟩
+  · simp only [Prod.mk.injEq] at h
+    rw [he] at h
+    simp [rsInitDecode] at h
+  · rw [hrr] at h
+    simp only [Prod.mk.injEq] at h
+    obtain ⟨hc', hdec⟩ := h
+    have htrue := hh.init c.peer idx sub r' rest s (hc0 ▸ hwf) hq hdec
+    rw [← hc0] at htrue
+    have := rr_one libPeer c0 (initReq idx sub) r' htrue
+    simp only [initReq] at this
+    rw [this]
+    refine ⟨_, by rw [hdec], ?_, ?_⟩
+    · simp only [← hc']
+      rw [hc0]
+      exact (hh.fw c.peer _).symm
+    · exact libPeer_wf c0.peer _ hwf
+
+theorem rsRead_sim_lib {σ} (P : Peer σ) (proj : σ → Srv × Node) (hh : HonestLib P proj) (c c' : Chan σ)
+    (c0 : Chan (Srv × Node)) (hc0 : c0.peer = proj c.peer) (hwf : SrvWF c0.peer.1) (st : RS) (x : RS × Bytes)
+    (h : rsRead P c st = (c', .ok x)) :
+    ∃ c0', rsRead libPeer c0 st = (c0', .ok x) ∧ c0'.peer = proj c'.peer ∧ SrvWF c0'.peer.1 := by
+  unfold rsRead at h ⊢
+  by_cases hd : st.done = true
+  · simp only [hd, if_true, Prod.mk.injEq, Except.ok.injEq] at h ⊢
+    obtain ⟨rfl, rfl⟩ := h
+    exact ⟨c0, ⟨rfl, rfl⟩, hc0, hwf⟩
+  · simp only [hd, Bool.false_eq_true, if_false] at h ⊢
+    cases he : st.expData with
+    | some d =>
+      simp only [he, Prod.mk.injEq, Except.ok.injEq] at h ⊢
+      obtain ⟨rfl, rfl⟩ := h
+      exact ⟨c0, ⟨rfl, rfl⟩, hc0, hwf⟩
+    | none =>
+      simp only [he] at h ⊢
+      rcases rr_cases P c ((REQUEST_SEGMENT_UPLOAD ||| st.toggle) :: List.replicate 7 0) with
+        ⟨_, hee⟩ | ⟨r', rest, hq, hrr⟩
+      · simp only [Prod.mk.injEq] at h
+        rw [hee] at h
+        simp [rsReadDecode] at h
+      · rw [hrr] at h
+        simp only [Prod.mk.injEq] at h
+        obtain ⟨hc', hdec⟩ := h
+        have htrue := hh.seg c.peer st r' rest x (hc0 ▸ hwf) hq hdec
+        rw [← hc0] at htrue
+        have := rr_one libPeer c0 (segReq st.toggle) r' htrue
+        simp only [segReq] at this
+        rw [this]
+        refine ⟨_, by rw [hdec], ?_, ?_⟩
+        · simp only [← hc']
+          rw [hc0]
+          exact (hh.fw c.peer _).symm
+        · exact libPeer_wf c0.peer _ hwf
+
+theorem rsReadAll_sim_lib {σ} (P : Peer σ) (proj : σ → Srv × Node) (hh : HonestLib P proj) :
+    ∀ (fuel : Nat) (c c' : Chan σ) (c0 : Chan (Srv × Node)) (st : RS) (acc : Bytes) (y : RS × Bytes),
+      c0.peer = proj c.peer → SrvWF c0.peer.1 → rsReadAll P fuel c st acc = (c', .ok y) →
+      ∃ c0', rsReadAll libPeer fuel c0 st acc = (c0', .ok y) ∧ c0'.peer = proj c'.peer := by
+  intro fuel
+  induction fuel with
+  | zero =>
+    intro c c' c0 st acc y hc0 _ h
+    simp only [rsReadAll, Prod.mk.injEq, Except.ok.injEq] at h ⊢
+    obtain ⟨rfl, rfl⟩ := h
+    exact ⟨c0, ⟨rfl, rfl⟩, hc0⟩
+  | succ fuel ih =>
+    intro c c' c0 st acc y hc0 hwf h
+    unfold rsReadAll at h ⊢
+    cases hr : rsRead P c st with
+    | mk c1 r1 =>
+      rw [hr] at h
+      cases r1 with
+      | error e => simp at h
+      | ok x =>
+        obtain ⟨c01, hr0, hc01, hwf1⟩ := rsRead_sim_lib P proj hh c c1 c0 hc0 hwf st x hr
+        rw [hr0]
+        simp only at h ⊢
+        by_cases hem : x.2.isEmpty = true
+        · simp only [hem, if_true, Prod.mk.injEq, Except.ok.injEq] at h ⊢
+          obtain ⟨rfl, rfl⟩ := h
+          exact ⟨c01, ⟨rfl, rfl⟩, hc01⟩
+        · simp only [hem, Bool.false_eq_true, if_false] at h ⊢
+          exact ih c1 c' c01 x.1 (acc ++ x.2) y hc01 hwf1 h
+
+/-- **An upload from the library's own server never reports success with different data.**  Let
+    the peer be honest towards the `LocalNode`'s server (lose responses, inject abort frames,
+    deliver responses with the wrong toggle bit, command specifier or multiplexer, duplicate them,
+    prepend stale frames that differ in any of these — any number of times).  If `SdoClient.upload`
+    returns normally it returns exactly the value the node hands out (`get_data`), cut to the
+    dictionary size for fixed-size numeric types. -/
+theorem upload_never_silently_wrong_lib {σ} (P : Peer σ) (proj : σ → Srv × Node) (hh : HonestLib P proj)
+    (c c' : Chan σ) (idx sub : Nat) (v d : Bytes) (odType : Option (Option Nat)) (fuel : Nat)
+    (hwf : SrvWF (proj c.peer).1) (hidx : idx < 65536) (hsub : sub < 256)
+    (hv : getData (proj c.peer).2 idx sub true = .ok v) (hlen : v.length < 2 ^ 32) (hfuel : v.length + 2 ≤ fuel)
+    (h : upload P c idx sub odType fuel = (c', .ok d)) :
+    d = truncate odType (some v.length) v := by
+  let c0 : Chan (Srv × Node) := { peer := proj c.peer, queue := [], sent := [] }
+  have hsim : ∃ c0', upload libPeer c0 idx sub odType fuel = (c0', .ok d) := by
+    unfold upload at h ⊢
+    cases hi : rsInit P c idx sub with
+    | mk c1 r1 =>
+      rw [hi] at h
+      cases r1 with
+      | error e => simp at h
+      | ok s =>
+        obtain ⟨c01, hi0, hc01, hwf1⟩ := rsInit_sim_lib P proj hh c c1 c0 rfl hwf idx sub s hi
+        rw [hi0]
+        simp only at h ⊢
+        cases he : s.expData with
+        | some dd =>
+          simp only [he, Prod.mk.injEq, Except.ok.injEq] at h ⊢
+          exact ⟨c01, rfl, h.2⟩
+        | none =>
+          simp only [he] at h ⊢
+          cases hra : rsReadAll P fuel c1 s [] with
+          | mk c2 r2 =>
+            rw [hra] at h
+            cases r2 with
+            | error e => simp at h
+            | ok y =>
+              obtain ⟨c02, hra0, _⟩ := rsReadAll_sim_lib P proj hh fuel c1 c2 c01 s [] y hc01 hwf1 hra
+              rw [hra0]
+              simp only [Prod.mk.injEq, Except.ok.injEq] at h ⊢
+              exact ⟨c02, rfl, h.2⟩
+  obtain ⟨c0', h0⟩ := hsim
+  obtain ⟨c0'', hup, _⟩ := upload_lib c0 idx sub v odType fuel hidx hsub hv hlen hfuel
+  rw [hup] at h0
+  simp only [Prod.mk.injEq, Except.ok.injEq] at h0
+  exact h0.2.symm
+
+/-- honest peers exist: any schedule of losses, duplicates and abort frames around the library
+    server (one decision per request, any number of disturbances) -/
+theorem schedPeer_lib_honest (sched : Nat → SKind) :
+    HonestLib (schedPeer libPeer sched) (fun p => p.1) := by
+  have one : ∀ (p : Srv × Node) (command : Nat) (rest : Bytes), SrvWF p.1 → command &&& 0xE0 ≠ 0x80 →
+      ∃ x, (libPeer p (command :: rest)).2 = [x] := by
+    intro p command rest hwf hc
+    obtain ⟨_, _, r, _, hs, _⟩ := one_response p.1 p.2 command rest hwf hc
+    exact ⟨r, by simpa [libPeer] using hs⟩
+  have key : ∀ (p : (Srv × Node) × Nat) (command : Nat) (tail r' : Bytes) (rest : List Bytes),
+      SrvWF p.1.1 → command &&& 0xE0 ≠ 0x80 →
+      ((schedPeer libPeer sched) p (command :: tail)).2 = r' :: rest →
+      (∃ e, decodeResponse r' = .error e) ∨ (libPeer p.1 (command :: tail)).2 = [r'] := by
+    intro p command tail r' rest hwf hc h
+    obtain ⟨q, i⟩ := p
+    obtain ⟨x, hx⟩ := one q command tail hwf hc
+    simp only [schedPeer] at h
+    cases hk : sched i <;> simp [hk, hx] at h
+    · right; obtain ⟨rfl, _⟩ := h; exact hx
+    · right; obtain ⟨rfl, _⟩ := h; exact hx
+    · left
+      obtain ⟨rfl, _⟩ := h
+      simp [decodeResponse, RESPONSE_ABORTED]
+  refine ⟨?_, ?_, ?_⟩
+  · intro p req
+    obtain ⟨q, i⟩ := p
+    simp [schedPeer]
+  · intro p idx sub r' rest s hwf hq hdec
+    rcases key p REQUEST_UPLOAD _ r' rest hwf (by decide) hq with ⟨e, he⟩ | h
+    · rw [he] at hdec; simp [rsInitDecode] at hdec
+    · exact h
+  · intro p st r' rest x hwf hq hdec
+    by_cases hcc : (REQUEST_SEGMENT_UPLOAD ||| st.toggle) &&& 0xE0 = 0x80
+    · -- a toggle value that would turn the request into an abort frame (the client's toggle is 0
+      -- or 0x10, so this never happens): the server answers nothing, so whatever was delivered
+      -- is the schedule's own abort frame, which the client does not accept
+      exfalso
+      obtain ⟨q, i⟩ := p
+      simp only [segReq] at hq
+      have hnone' : ∀ cmd : Nat, cmd &&& 0xE0 = 0x80 → (libPeer q (cmd :: List.replicate 7 0)).2 = [] := by
+        intro cmd hcmd
+        simp only [libPeer, srvStep, dispatch, hcmd, REQUEST_UPLOAD, REQUEST_SEGMENT_UPLOAD, REQUEST_DOWNLOAD,
+          REQUEST_SEGMENT_DOWNLOAD, REQUEST_BLOCK_UPLOAD, REQUEST_BLOCK_DOWNLOAD, REQUEST_ABORTED]
+        simp [requestAborted, finish]
+      have hnone := hnone' _ hcc
+      simp only [schedPeer] at hq
+      rw [hnone] at hq
+      cases hk : sched i <;> simp [hk] at hq
+      obtain ⟨rfl, _⟩ := hq
+      simp [decodeResponse, RESPONSE_ABORTED, rsReadDecode] at hdec
+    · rcases key p _ _ r' rest hwf hcc hq with ⟨e, he⟩ | h
+      · rw [he] at hdec; simp [rsReadDecode] at hdec
+      · exact h
 
 end Canopen.C07.Lib
